@@ -112,9 +112,12 @@ def gen_case(rng):
     fail = []
     if n and rng.random() < 0.2:
         fail = sorted({rng.choice(xs) for _ in range(rng.randint(1, 2))})
+    # the progress bar and its `total` hint (exact, too small, too large, absent) are presentation only: they never change the result
+    total = rng.choice([None, None, n, max(0, n - c - 1), n // 2, n + 3, 0])
     return {'xs': xs, 'c': c, 'threads': rng.choice([1, 2, 2, 3, 4, 8]), 'sort': rng.random() < 0.75,
             'fail': fail, 'style': rng.choice(['random', 'random', 'reverse', 'identity', 'rotate']),
-            'gen': rng.random() < 0.3, 'which': rng.choice(['new', 'new', 'new', 'old'])}
+            'gen': rng.random() < 0.3, 'which': rng.choice(['new', 'new', 'new', 'old']),
+            'tqdm': rng.random() < 0.4, 'total': total}
 
 
 def run_impl(case, rng):
@@ -135,7 +138,7 @@ def run_impl(case, rng):
     arg = (x for x in xs) if case['gen'] else list(xs)
     try:
         if case['which'] == 'new':
-            r = th.parallel_map(f, arg, threads=case['threads'], sort=case['sort'], use_tqdm=False, chunksize=case['c'])
+            r = th.parallel_map(f, arg, threads=case['threads'], sort=case['sort'], use_tqdm=case['tqdm'], total=case['total'], chunksize=case['c'])
         else:
             r = it.parallel_map(f, arg, threads=case['threads'])
         out = {'ok': list(r)}
